@@ -189,7 +189,7 @@ CLAIMS['C17'] = dict(
     note=_TB + 'Assumed: take(128).peekable() as a buffer of one item in front of at most 128 calls of the walker\'s next (prelude/shim_takepeek.rs; each inner call is assumed to satisfy the contract PROVED for RevTokenIter::next), '
          'the Unicode tables of the unicode-id-start crate (two uninterpreted predicates), char::is_whitespace (uninterpreted), str::char_indices, chars / chars().rev(), split_whitespace().next(), &s[..n] / get(..n) / get(n..) at '
          'character offsets, char::len_utf16, Option comparisons with Some(&str), the sequential cell model of Mutex / AtomicUsize. SourceMap::get_original_function_name (the position-based entry point) is under contract too: the walk starts at the token C04 says the position resolves to, whose index is proved to be the index of its raw token (D16 fixed; `and_then` read as its definition, R-and-then). '
-         'The SourceMapIndex / DecodedMap variants of the wrapper are not under contract. Token columns inside a surrogate pair are outside the precondition. The bounded stand-in function_name still runs through the public API.',
+         'The SourceMapIndex / DecodedMap variants of the wrapper are not under contract; for index maps the bounded stand-in reports known finding D18 (text read at section-relative positions). Token columns inside a surrogate pair are outside the precondition. The bounded stand-in function_name still runs through the public API.',
     design_ref='DESIGN.md 5 C17')
 CLAIMS['C18'] = dict(
     text='PARTIAL: unbounded proof of the discovery and detection mechanisms (src/detector.rs): locate_sourcemap_reference returns, for the sequence of lines its reader yields, the reference '
